@@ -111,7 +111,7 @@ mod verif_kani {
         core::mem::forget(g);
     }
 
-    //@harness props=C02,C12 kind=bounded fns=ReadableLuaGenerator::push_str,ReadableLuaGenerator::push_space_if_needed,ReadableLuaGenerator::needs_space,ReadableLuaGenerator::raw_push_str bound="previous output: exactly 2 bytes over ALL printable ASCII and newline; pushed token: <= 2 bytes over all printable non-blank ASCII; no indentation; line breaks allowed/forbidden symbolic; column_span, current_line_length, last_push_length: every usize value allowed by wf" budget=300
+    //@harness props=C02,C12 kind=bounded fns=ReadableLuaGenerator::push_str,ReadableLuaGenerator::push_space_if_needed,ReadableLuaGenerator::needs_space,ReadableLuaGenerator::raw_push_str bound="previous output: exactly 2 bytes over ALL printable ASCII and newline; pushed token: <= 2 bytes over all printable non-blank ASCII; no indentation; line breaks allowed/forbidden symbolic; column_span, current_line_length, last_push_length: every usize value allowed by wf" budget=400
     //@ desc="push_str(c): requires wf; ensures wf, output' == output ++ blanks ++ c, blanks non-empty whenever last(output),first(c) fuse (O-lex), for EVERY column span and whether or not line breaks are allowed"
     #[kani::proof]
     #[kani::unwind(6)]
@@ -135,7 +135,7 @@ mod verif_kani {
         check_push_str::<2>(1);
     }
 
-    //@harness props=C02,C12 kind=bounded fns=ReadableLuaGenerator::push_char,ReadableLuaGenerator::push_space_if_needed bound="previous output: exactly 2 bytes over ALL printable ASCII and newline; pushed char: any printable non-blank ASCII; no indentation; column_span etc. symbolic" budget=300
+    //@harness props=C02,C12 kind=bounded fns=ReadableLuaGenerator::push_char,ReadableLuaGenerator::push_space_if_needed bound="previous output: exactly 2 bytes over ALL printable ASCII and newline; pushed char: any printable non-blank ASCII; no indentation; column_span etc. symbolic" budget=400
     //@ desc="push_char(ch): requires wf; ensures wf, output' == output ++ blanks ++ ch, blanks non-empty whenever last(output),ch fuse (O-lex)"
     #[kani::proof]
     #[kani::unwind(6)]
@@ -156,7 +156,7 @@ mod verif_kani {
         core::mem::forget(g);
     }
 
-    //@harness props=C02,C12 kind=bounded fns=ReadableLuaGenerator::push_str_and_break_if,ReadableLuaGenerator::get_last_push_str bound="previous output: exactly 2 bytes; pushed token 1..2 bytes; predicate = symbolic-but-fixed boolean that also checks its argument; column_span etc. symbolic" budget=300
+    //@harness props=C02,C12 kind=bounded fns=ReadableLuaGenerator::push_str_and_break_if,ReadableLuaGenerator::get_last_push_str bound="previous output: exactly 2 bytes; pushed token 1..2 bytes; predicate = symbolic-but-fixed boolean that also checks its argument; column_span etc. symbolic" budget=400
     //@ desc="push_str_and_break_if(c, p): p is evaluated on exactly the last pushed text; output' == output ++ blanks ++ c; blanks non-empty whenever p says break; wf"
     #[kani::proof]
     #[kani::unwind(6)]
@@ -189,7 +189,7 @@ mod verif_kani {
         core::mem::forget(g);
     }
 
-    //@harness props=C02,C12 kind=bounded fns=ReadableLuaGenerator::push_new_line_if_needed bound="previous output: exactly 2 bytes; pushed_length <= 2^32; no indentation; column_span etc. symbolic" budget=300
+    //@harness props=C02,C12 kind=bounded fns=ReadableLuaGenerator::push_new_line_if_needed bound="previous output: exactly 2 bytes; pushed_length <= 2^32; no indentation; column_span etc. symbolic" budget=400
     //@ desc="push_new_line_if_needed(n): output' == output or output ++ \"\\n\"; wf"
     #[kani::proof]
     #[kani::unwind(6)]
